@@ -16,12 +16,14 @@ DRIVER_ROOT = 'Drv.C06'
 GEN = ['Regex']
 THEOREMS = [
     # totality, error positions (all error sources, all eight statement kinds with an expression)
-    'C06.parse_total', 'C06.error_position', 'C06.first_error_wins', 'C06.shape_offsets', 'C06.classify_error_column',
+    'C06.parse_total', 'C06.error_position', 'C06.error_kinds', 'C06.first_error_wins', 'C06.shape_offsets',
+    'C06.classify_error_column',
     # nothing left open, every logical line accounted for
     'C06.no_open_block_accepted', 'C06.ok_is_stmts', 'C06.open_block_rejected', 'C06.accounts_for_every_line',
     'C06.line_has_effect', 'C06.block_lines_move_the_stack', 'C06.LineEffect.stmts_monotone',
     # line numbers move with the text / the start line number
     'C06.start_line_offsets', 'C06.prepend_is_start_offset', 'C06.prepend_shifts_line_partial', 'C06.prepend_shifts_line_single',
+    'C06.stepLine_abs', 'C06.prepend_statements_shift', 'C06.prepend_statements_acceptance',
     # the formatted message (BareProofs/C06Caret.lean)
     'C06.caret_under_same_char', 'C06.caret_in_range', 'C06.caret_row',
 ]
@@ -33,6 +35,9 @@ ASSUMPTIONS = [
 LEVEL_TEXT = ('Theorems about the Lean model of parse_script (line splitter + continuation joiner, line classifier, token scanners, '
               'stack-based lowering): every error carries line number = start + index of the first physical line of the logical line, '
               'that line text and a column inside it; success implies empty block stack, no open function, no pending continuation; '
+              'every successfully parsed logical line is classified once and has a documented effect (statement appended, function opened / '
+              'closed, include merged); comment/blank chunks in front give the same outcome and simple statement lines in front the same '
+              'error, line number moved by their count; start_line_number + d moves every reported number by d; '
               'the caret of the formatted message sits under the same character for every line length/column (elision arithmetic). '
               'The model is tied to parser.py by differential correspondence on token soup, mutated programs and long lines, and '
               'metamorphic oracles (prepend shifts line number, marker lines survive) run on the implementation.')
@@ -328,7 +333,8 @@ def gen_texts(ctx):
 def streams(ctx):
     parser = fw.impl()['parser']
     rng = ctx.rng('meta')
-    st = ctx.stream('texts', 'token soup, single-token mutations of generated programs, deleted closing keywords, dangling continuation, '
+    st = ctx.stream('texts', 'hand-picked corpus (every error source, every statement kind with an expression), token soup, single-token '
+                             'mutations of generated programs, deleted closing keywords, dangling continuation, lone backslash as last line, '
                              'long lines with the fault at every column, nesting to 50, backslash runs; non-trivial = a parser error or '
                              'a model with >= 3 statements')
     cases = list(gen_texts(ctx))
